@@ -53,8 +53,10 @@ FLOORS = {"quick": {"A.load-vs-model": 100, "A.listing": 15, "A.history": 30, "A
                        "B.restart-complete": 25, "B.restart-with-failure": 25, "B.restart.merged-group-compared": 100, "hook:DatabaseInterface.prepRestartRun": 50}}
 TIMEOUT = {"quick": 900, "thorough": 7200}
 
-LAYOUTS_QUICK = [(2, 2, False), (2, 1, True)]
-LAYOUTS_THOROUGH = [(1, 0, False), (1, 1, False), (1, 3, False), (2, 2, False), (2, 1, True), (3, 1, False), (3, 2, True), (2, 3, False), (1, 2, True), (1, 0, True), (3, 3, False), (2, 2, True)]  # burnSteps 0 is only accepted for a single cycle
+# third entry: False = loose coupling, True = tight coupling, a tuple = tight coupling with these cycles listed in
+# cyclesSkipTightCouplingInteraction (no Coupled hooks there, but every node is still written)
+LAYOUTS_QUICK = [(2, 2, False), (2, 1, True), (2, 1, (0,))]
+LAYOUTS_THOROUGH = [(1, 0, False), (1, 1, False), (1, 3, False), (2, 2, False), (2, 1, True), (3, 1, False), (3, 2, True), (2, 3, False), (1, 2, True), (1, 0, True), (3, 3, False), (2, 2, True), (2, 1, (0,)), (3, 1, (1,)), (2, 2, (0, 1))]  # burnSteps 0 is only accepted for a single cycle
 
 
 def failure_points(ncyc, bsteps, coupled):
@@ -63,7 +65,7 @@ def failure_points(ncyc, bsteps, coupled):
         pts += [("BOC", pos, c) for pos in ("pre", "post")]
         for n in range(bsteps + 1):
             pts += [("EveryNode", pos, c, n) for pos in ("pre", "post")]
-            if coupled:
+            if coupled and not (isinstance(coupled, tuple) and c in coupled):
                 pts += [("Coupled", pos, c, n) for pos in ("pre", "post")]
         pts += [("EOC", pos, c) for pos in ("pre", "post")]
     pts += [("EOL", pos) for pos in ("pre", "post")]
@@ -681,7 +683,7 @@ def expected_groups(ncyc, bsteps, coupled, point):
         events.append(("BOC", c))
         for n in range(bsteps + 1):
             events.append(("EveryNode", c, n))
-            if coupled:
+            if coupled and not (isinstance(coupled, tuple) and c in coupled):
                 events.append(("Coupled", c, n))
             events.append(("WRITE-AFTER-NODE", c, n))
         events.append(("EOC", c))
@@ -719,6 +721,9 @@ def run_once(H, lay, point, title, restart=None):
            "tightCoupling": coupled, "cycleLength": 100.0}
     if restart:
         new.update({"reloadDBName": os.path.abspath(restart[0]), "startCycle": restart[1], "startNode": restart[2], "loadStyle": "fromDB"})
+    if isinstance(coupled, tuple):
+        new["tightCoupling"] = True
+        new["cyclesSkipTightCouplingInteraction"] = list(coupled)
     cs = H.base.modified(newSettings=new)
     cs.caseTitle = title
     with quiet():
